@@ -79,6 +79,27 @@ def m_lroo(r):
     sub(r / OPS / "lroo.py", "    dots = np.where(data.flatten() == 1)[0]\n", "    dots = np.where(data.flatten() == 1)[0].astype(np.uint8)\n")
 
 
+def m_fastmath_pgu(r):
+    sub(r / OPS / "ws2dpgu.py", '        "(n),(),(),() -> (n)",\n        nopython=True,\n', '        "(n),(),(),() -> (n)",\n        nopython=True,\n        fastmath=True,\n')
+
+
+def m_fastmath_wcv(r):
+    sub(r / OPS / "ws2dwcv.py", '        "(n),(),(m),() -> (n),()",\n        nopython=True,\n',
+        '        "(n),(),(m),() -> (n),()",\n        nopython=True,\n        fastmath={"arcp", "contract", "ninf", "nsz", "reassoc"},\n')
+
+
+def m_layout_gammastd_grp(r):
+    sub(r / OPS / "stats.py", '"(int16[:], int16[:], float64, float64, int16[:, :], int16[:])"', '"(int16[::1], int16[:], float64, float64, int16[:, :], int16[:])"')
+
+
+def m_layout_wcv_llas(r):
+    sub(r / OPS / "ws2dwcv.py", "[(float64[:], float64, float64[:], boolean, int16[:], float64[:])]", "[(float64[:], float64, float64[::1], boolean, int16[:], float64[:])]")
+
+
+def m_layout_optvplc_y(r):
+    sub(r / OPS / "ws2doptvplc.py", "[(int16[:], float64, float64, float64, int16[:], float64[:])]", "[(int16[::1], float64, float64, float64, int16[:], float64[:])]")
+
+
 def h_rename(r):
     p = r / OPS / "stats.py"
     s = p.read_text()
@@ -119,6 +140,11 @@ CASES = {
     "sens_slope_vectorised": (m_sens_slope, True, "mk_sens_slope vectorised: diffs = x[i+1:] - x[i] on the input array"),
     "sens_slope_fused": (m_sens_slope_fused, True, "mk_sens_slope vectorised as ONE fused array expression (no int16 wrap, but float32 quotient)"),
     "lroo_uint8": (m_lroo, True, "lroo: positions .astype(np.uint8)"),
+    "fastmath_ws2dpgu": (m_fastmath_pgu, True, "fastmath=True added to the guvectorize decorator of ws2dpgu"),
+    "fastmath_set_ws2dwcv": (m_fastmath_wcv, True, 'fastmath={"arcp","contract","ninf","nsz","reassoc"} on ws2dwcv'),
+    "layout_gammastd_grp": (m_layout_gammastd_grp, True, "gammastd_grp: int16[::1] for xx in the int16 signature"),
+    "layout_ws2dwcv_llas": (m_layout_wcv_llas, True, "ws2dwcv: float64[::1] for llas"),
+    "layout_ws2doptvplc_y": (m_layout_optvplc_y, True, "ws2doptvplc: int16[::1] for y"),
     "harmless_rename": (h_rename, False, "rename locals (avg, pixv in mean_grp; i1, i2 in ws2d; z in ws2dgu)"),
     "harmless_reorder": (h_reorder, False, "reorder independent statements (ws2d, rolling_sum, autocorr_1d_float)"),
     "harmless_comments": (h_comments, False, "comments and blank lines after every for header of 7 modules"),
@@ -126,7 +152,8 @@ CASES = {
 
 PRED = {"probesAgree": "select_agrees_numpy", "loopsReachable": "loops_reachable", "storesSafe": "stores_safe",
         "outputsDocumented": "outputs_documented", "accumulatorsWide": "accumulators_wide", "noNarrowArith": "no_narrow_arith",
-        "castsSafe": "casts_safe"}
+        "castsSafe": "casts_safe", "flagsDocumented": "flags_documented", "decoratorDocumented": "decorator_documented",
+        "layoutsAny": "layouts_any"}
 
 
 def lean_bin():
@@ -170,6 +197,10 @@ def check(work: Path, leanexe: str):
             failing.add("kernels_covered")
         elif "skippedModules" in msg:
             failing.add("skipped_modules")
+        elif "sharedAgree" in msg:
+            failing.add("shared_helper_flags")
+        elif "typings.any" in msg:
+            failing.add("typings_complete")
         elif "narrowDocs.all" in msg:
             failing.add("whitelists_tight")
         else:
@@ -182,7 +213,7 @@ def check(work: Path, leanexe: str):
     b = props.index("/-! ## the kernels the families are stated for -/")
     rep = src / "Report.lean"
     rep.write_text("import Hdc.Model.Types\nimport Hdc.Gen.Types\n" + props[a:b]
-                   + '#eval IO.println (String.intercalate "\\n" (kernels.flatMap (fun k => (if k.gufunc then k.reportLoops shadowOK else []) ++ k.report outDocs narrowDocs accumDocs castDocs)).eraseDups)\n'
+                   + '#eval IO.println (String.intercalate "\\n" (kernels.flatMap (fun k => (if k.gufunc then k.reportLoops shadowOK else []) ++ k.reportFlags flagDocs decoDocs layoutDocs ++ k.report outDocs narrowDocs accumDocs castDocs)).eraseDups)\n'
                    + "end Hdc.Props.Types\n")
     r = subprocess.run([leanexe, f"--root={src}", str(rep)], env=env, capture_output=True, text=True, cwd=src)
     report = [re.sub(r"Hdc\.Types\.(DType|Role)\.", "", ln) for ln in r.stdout.splitlines() if ln.strip()]
